@@ -339,25 +339,28 @@ Definition t_rich_club_bd : prog := rc_prog (Sum k_ (Nz (A_ k_ i_)) +' Sum k_ (N
 (* assortativity: vector 1 = "source-side" quantity, vector 2 = "target-side" quantity;
    sums over ordered pairs with an edge (for flag 0 the code sums over i<j: the summands are symmetric,
    so every quotient below is unchanged by summing over both orientations) *)
-Definition assort_prog (offdiag : bool) (d1 d2 : tm) : prog :=
-  let e := if offdiag then Neq i_ j_ *' Pos (A_ i_ j_) else Pos (A_ i_ j_) in
+(* `edge`: which cells are edges: assortativity_wei selects CIJ > 0, assortativity_bin (since /repo 85f73e1) CIJ != 0 *)
+Definition assort_prog_e (edge : tm) (offdiag : bool) (d1 d2 : tm) : prog :=
+  let e := if offdiag then Neq i_ j_ *' edge else edge in
   LetV 1 d1 (LetV 2 d2
   (LetS 1 (Sum2 i_ j_ e)                                                                    (* K *)
   (LetS 2 (Sum2 i_ j_ (e *' Vc 1 i_ *' Vc 2 j_) /' Sc 1)                                   (* term1 *)
   (LetS 3 (Sum2 i_ j_ (e *' (Vc 1 i_ +' Vc 2 j_) /' c2) /' Sc 1)                          (* sqrt term2 *)
   (LetS 4 (Sum2 i_ j_ (e *' (Vc 1 i_ *' Vc 1 i_ +' Vc 2 j_ *' Vc 2 j_) /' c2) /' Sc 1)    (* term3 *)
   (OutS ((Sc 2 -' Sc 3 *' Sc 3) /' (Sc 4 -' Sc 3 *' Sc 3)))))))).
+Definition assort_prog := assort_prog_e (Pos (A_ i_ j_)).
+Definition assort_prog_nz := assort_prog_e (Nz (A_ i_ j_)).
 Definition dg_in := Sum k_ (Nz (A_ k_ i_)).
 Definition dg_out := Sum k_ (Nz (A_ i_ k_)).
 Definition st_in := Sum k_ (A_ k_ i_).
 Definition st_out := Sum k_ (A_ i_ k_).
 Definition t_assortativity_bin (flag : nat) : prog :=
   (match flag with
-  | 0 => assort_prog true dg_in dg_in
-  | 1 => assort_prog false dg_out dg_in
-  | 2 => assort_prog false dg_in dg_out
-  | 3 => assort_prog false dg_out dg_out
-  | _ => assort_prog false dg_in dg_in
+  | 0 => assort_prog_nz true dg_in dg_in
+  | 1 => assort_prog_nz false dg_out dg_in
+  | 2 => assort_prog_nz false dg_in dg_out
+  | 3 => assort_prog_nz false dg_out dg_out
+  | _ => assort_prog_nz false dg_in dg_in
   end)%nat.
 Definition t_assortativity_wei (flag : nat) : prog :=
   (match flag with
